@@ -356,6 +356,16 @@ def rule_resolution(ck, F):
 
     def reaches_fetcher(f_):
         return f_ in fetchers or bool(scans.reachable(g, [f_]) & fetchers)
+    # "the message's first part" means the first in document order: the table of parts has to keep insertion order
+    tables = [(st_["path"], f_["name"], f_["ty"]) for st_ in F.lib.items["structs"] for f_ in st_["variants"][0]["fields"]
+              if f_["name"] == "parts" and "RustNode" in f_["ty"]]
+    for (sp_, fname_, fty_) in tables:
+        ordered = fty_.replace(" ", "").startswith(("model::ordered_map::OrderedMap<", "std::vec::Vec<", "indexmap::"))
+        (ck.ok if ordered else ck.violation)("R6", "parts-table-ordered", sp_, f"{sp_.rsplit('::', 1)[-1]}.{fname_} keeps the parts in document order" if ordered else
+                                             f"{sp_.rsplit('::', 1)[-1]}.{fname_} is a `{fty_[:60]}`: it does not keep the parts in document order, so the implicit body part "
+                                             f"(the message's first part) and the order of members depend on the part names")
+    if not tables:
+        ck.undecided("R6", "parts-table-ordered", "-", "no struct with a `parts` table of components was found")
     body_fns = sorted(attr_reads.get("parts", ()))
     bspan = F.lib.body(body_fns[0])["span"] if body_fns else F.lib.body(broot)["span"]
     explicit = bool(body_fns) and all(reaches_fetcher(f_) for f_ in body_fns)
